@@ -1830,7 +1830,7 @@ FLOWFUNCS = [
          local_types={"close_reason": "reasons"}, rust_ret="Result<Self, Error>"),
     # the response is a value of the model's type; what the function asks of it (status, last Location, Connection: close) are the
     # model's readings of the http crate's accessors (resp_* in GenLib / Flow.v)
-    dict(coq="gen_try_response", file="src/client/flow.rs", impl=r"impl<B>\s+Flow<B,\s*RecvResponse>", rust="try_response",
+    dict(coq="gen_try_response", file="src/client/flow.rs", impl=r"impl<B>\s+Flow<B,\s*RecvResponse>", rust="try_response", errst=True,
          subst=[(r"self\s*\.inner\s*\.call\s*\.as_recv_response_mut\(\)\s*\.try_response\(input\)", "call_result"),
                 (r"self\.inner\.", "inner_"),
                 (r"response\s*\.headers\(\)\s*\.get_all\(\"location\"\)\s*\.into_iter\(\)\s*\.last\(\)\s*\.cloned\(\)", "resp_last_location(response)"),
